@@ -112,7 +112,7 @@ def parse_printed(line):
     return tag, vals
 
 
-def run(module, cfg, *, workers=16, simulate=None, depth=None, seed=None, timeout=3600,
+def run(module, cfg, *, workers=16, simulate=None, depth=None, seed=None, timeout=3600, sink=None,
         env=None, coverage=False, extra_files=None, java_opts=None, extra_modules=None,
         deadlock=False, dfid=None, keep_stdout=False, expect_violation=False):
     """Run TLC on spec/<module>.tla with configuration text `cfg`.
@@ -162,52 +162,72 @@ def run(module, cfg, *, workers=16, simulate=None, depth=None, seed=None, timeou
         cmd.append(module + ".tla")
         e = dict(os.environ)
         e.update(env or {})
+        # the output is consumed line by line: printed values are parsed (or handed to `sink`) at once, only the other lines are kept
+        import collections
+        import threading
+        p = subprocess.Popen(cmd, cwd=rd, env=e, stdout=subprocess.PIPE, stderr=subprocess.STDOUT, text=True, errors="replace", bufsize=1 << 20)
+        fired = []
+
+        def _kill():
+            fired.append(True)
+            p.kill()
+        timer = threading.Timer(timeout, _kill)
+        timer.start()
+        head, tail = [], collections.deque(maxlen=3000)
         try:
-            p = subprocess.run(cmd, cwd=rd, env=e, stdout=subprocess.PIPE, stderr=subprocess.STDOUT,
-                               timeout=timeout, text=True, errors="replace")
-        except subprocess.TimeoutExpired as ex:
-            raise TLCError("TLC timed out after %ss on %s" % (timeout, module)) from ex
-        out = p.stdout
-        res.stdout = out if keep_stdout or True else ""
-        for line in out.splitlines():
-            if line.startswith('<<"'):
-                pr = parse_printed(line)
-                if pr is not None:
-                    res.printed.append(pr)
+            for line in p.stdout:
+                line = line.rstrip("\n")
+                if line.startswith('<<"'):
+                    pr = parse_printed(line)
+                    if pr is not None:
+                        if sink is not None:
+                            sink(pr[0], pr[1])
+                        else:
+                            res.printed.append(pr)
+                        continue
+                (head if len(head) < 400 else tail).append(line)
+                m = re.match(r"^(\d+) states generated, (\d+) distinct states found", line)
+                if m:
+                    res.generated, res.distinct = int(m.group(1)), int(m.group(2))
                     continue
-            m = re.match(r"^(\d+) states generated, (\d+) distinct states found", line)
-            if m:
-                res.generated, res.distinct = int(m.group(1)), int(m.group(2))
-                continue
-            m = re.match(r"^The depth of the complete state graph search is (\d+)", line)
-            if m:
-                res.depth = int(m.group(1))
-                continue
-            m = re.match(r"^Error: Invariant (\S+) is violated", line)
-            if m:
-                res.violated = m.group(1)
-                continue
-            m = re.match(r"^Error: The invariant of (\S+) is equal to FALSE", line)
-            if m:
-                res.violated = m.group(1)
-                continue
-            m = re.match(r"^Error: Action property (\S+) is violated", line)
-            if m:
-                res.violated = m.group(1)
-                continue
-            if line.startswith("Error: Temporal properties were violated"):
-                res.violated = res.violated or "TemporalProperty"
-                continue
-            if re.match(r"^Error: .*[Pp]ostcondition", line) or "POSTCONDITION" in line and "Error" in line:
-                res.violated = res.violated or "Postcondition"
-                continue
-            if line.startswith("Error:") and res.error is None and res.violated is None:
-                # keep the first error line plus a little context
-                idx = out.find(line)
-                res.error = out[idx:idx + 1500]
-            m = re.match(r"^The number of states generated: (\d+)", line)
-            if m and simulate is not None:
-                res.generated = int(m.group(1))
+                m = re.match(r"^The depth of the complete state graph search is (\d+)", line)
+                if m:
+                    res.depth = int(m.group(1))
+                    continue
+                m = re.match(r"^Error: Invariant (\S+) is violated", line)
+                if m:
+                    res.violated = m.group(1)
+                    continue
+                m = re.match(r"^Error: The invariant of (\S+) is equal to FALSE", line)
+                if m:
+                    res.violated = m.group(1)
+                    continue
+                m = re.match(r"^Error: Action property (\S+) is violated", line)
+                if m:
+                    res.violated = m.group(1)
+                    continue
+                if line.startswith("Error: Temporal properties were violated"):
+                    res.violated = res.violated or "TemporalProperty"
+                    continue
+                if re.match(r"^Error: .*[Pp]ostcondition", line) or "POSTCONDITION" in line and "Error" in line:
+                    res.violated = res.violated or "Postcondition"
+                    continue
+                m = re.match(r"^The number of states generated: (\d+)", line)
+                if m and simulate is not None:
+                    res.generated = int(m.group(1))
+            p.wait()
+        finally:
+            timer.cancel()
+            if p.poll() is None:
+                p.kill()
+        if fired:
+            raise TLCError("TLC timed out after %ss on %s" % (timeout, module))
+        out = "\n".join(head + list(tail))
+        res.stdout = out
+        if res.violated is None:
+            idx = ("\n" + out).find("\nError:")
+            if idx >= 0:
+                res.error = out[idx:idx + 1500]     # the first error line plus a little context
         if coverage:
             for m in re.finditer(r"^<(\w+) line \d+, col \d+ to line \d+, col \d+ of module \w+>: (\d+):(\d+)",
                                  out, re.M):
